@@ -4,7 +4,10 @@ pub mod ev;
 pub mod pool;
 pub mod refm;
 pub mod run;
+pub mod refeval;
 pub mod sched;
+pub mod surface;
+pub mod userrel;
 pub mod c03;
 pub mod c04;
 pub mod c09;
